@@ -167,7 +167,8 @@ class NuWiki:
                 self.revisions[meta["revid"]] = new_page
 
         tmp = list(self.revisions.items())
-        python2sort(tmp, reverse=True)
+        # python2sort returns the sorted sequence, it does not sort in place
+        tmp = python2sort(tmp, reverse=True)
         for revid, page in tmp:
             title = page.title
             if title not in self.revisions:
